@@ -93,9 +93,43 @@ func (s *Session) load(st *State, loc *Loc) Val {
 	idx := append([]T{loc.Ref}, loc.Idx...)
 	for i := range leaves {
 		h := s.heapGet(st, names[i], sorts[i])
-		v.L = append(v.L, nestedSelect(h, idx))
+		v.L = append(v.L, s.foldSelect(h, idx))
 	}
 	return v
+}
+
+// heapDef remembers that a named heap version is store(base, idx, val), so that reads of a location that was
+// just written (or of a syntactically different numeral location) are resolved while the VC is built.
+type heapDef struct {
+	base T
+	idx  []T
+	val  T
+}
+
+func (s *Session) foldSelect(h T, idx []T) T {
+	for steps := 0; steps < 64; steps++ {
+		d, ok := s.heapDefs[h.S]
+		if !ok || len(d.idx) != len(idx) {
+			break
+		}
+		same, distinct := true, false
+		for k := range idx {
+			if d.idx[k].S != idx[k].S {
+				same = false
+				if isNumeral(d.idx[k].S) && isNumeral(idx[k].S) {
+					distinct = true
+				}
+			}
+		}
+		if same {
+			return d.val
+		}
+		if !distinct {
+			break
+		}
+		h = d.base
+	}
+	return nestedSelect(h, idx)
 }
 
 func (s *Session) store(st *State, loc *Loc, v Val) {
@@ -107,7 +141,14 @@ func (s *Session) store(st *State, loc *Loc, v Val) {
 	for i := range leaves {
 		h := s.heapGet(st, names[i], sorts[i])
 		nh := nestedStore(h, idx, v.L[i])
-		st.Heap[names[i]] = s.define("H", nh)
+		nm := s.define("H", nh)
+		st.Heap[names[i]] = nm
+		if nm.S != nh.S {
+			if s.heapDefs == nil {
+				s.heapDefs = map[string]heapDef{}
+			}
+			s.heapDefs[nm.S] = heapDef{base: h, idx: idx, val: v.L[i]}
+		}
 	}
 }
 
